@@ -49,7 +49,8 @@ TECHNIQUE = (
     "mask/shape/field lattice through the public function with a connected-component oracle"
 )
 CLAIM = (
-    "For every listed small pixel graph (2x2, 2x3, 2x4, 3x3 bounded; 1x4, 2x4 and masked 3x4 periodic; all or structured masks) "
+    "For every listed small pixel graph (quick: 2x2, 2x3, 3x2, 2x4 bounded and 1x4 periodic with every mask; thorough adds 3x3 and "
+    "4x2 bounded, 2x4, 4x2, 4x1 periodic and 3x4 periodic under masks that leave at most 9 pixels) "
     "and every smooth field of the alphabet, EVERY order of merging the edge set was executed on the real UnionFindPhase: in "
     "every reachable (parent, rank, offset) state the offsets inside a component differ by the true wrap counts, the final "
     "offsets agree with find_root_and_offset, and every quiescent state has exactly one component per connected mask region. "
@@ -80,9 +81,11 @@ TWO_PI = 2.0 * math.pi
 ITOH = 0.9 * math.pi  # every smooth field is rescaled to this maximum neighbour step
 
 # Tolerance on "constant on a component" / "integer multiple of 2*pi" (radians).
-# Worst deviation observed on the unchanged tree over seeds {0,1,2,7,12345}, both tiers: 2.9e-5 rad
-# (float32 input, 8x8 grid, values up to ~40 rad; the library also multiplies the integer offsets by a
-# float32 2*pi, 1.7e-7 rad per wrap).  Smallest effect of a wrong wrap: 2*pi = 6.28 rad (1/20 = 0.31).
+# Worst deviation observed on the unchanged tree over seeds {0,1,2,7,12345}, both tiers (3.5 million calls,
+# histogram by decade printed by every run and kept in the evidence as count_*_dev_*): always below 1e-5 rad
+# (worst decade 1e-6: float32 input, values up to ~40 rad; for float64 input the residue is 1.7e-7 rad per
+# wrap because the library multiplies the integer offsets by a float32 2*pi).  TOL is 200x that.
+# Smallest effect of a wrong wrap (every mutant): 2*pi = 6.28 rad, so TOL is 1/3000 of it (required <= 1/20).
 TOL = 2e-3
 
 
@@ -873,12 +876,12 @@ A1_PERIODIC_FIELDS = ["per_sin", "per_bl0"]
 # Given as the pixels REMOVED from the 3x4 grid (row-major index).
 TORUS_3X4_REMOVED = [
     (8, 9, 10, 11), (4, 5, 6, 7), (0, 1, 2, 3),  # a row removed: rows that remain are still neighbours through the wrap
-    (9, 10, 11), (5, 6, 11), (0, 5, 10),  # 9 pixels (~5*10^4 states each), rows that wrap horizontally survive
-    (0, 4, 8), (2, 6, 10),  # a column removed (9 pixels): no horizontal wrap, vertical 3-cycles
+    (9, 10, 11), (5, 6, 11),  # 9 pixels (~5*10^4 states, ~2.5*10^5 transitions each), rows that wrap horizontally survive
+    (0, 4, 8),  # a column removed (9 pixels): no horizontal wrap, vertical 3-cycles
     (0, 4, 8, 2, 6, 10), (1, 5, 9, 3, 7),  # two components / a one-pixel bridge through the wrap
     (5, 6, 9, 10), (0, 3, 8, 11),
 ]
-TORUS_3X4_SECOND_FIELD_MAX_PIXELS = 8  # the second periodic field only on masks with <= 8 pixels (+ the first two 9-pixel masks)
+TORUS_3X4_SECOND_FIELD_MAX_PIXELS = 8  # the second periodic field only on masks with <= 8 pixels (+ the first 9-pixel mask)
 
 
 def popcount(b):
@@ -914,7 +917,7 @@ def a1_configs(ctx):
             cfgs += [(2, 4, True, full(2, 4), fn)]
             cfgs += [(4, 1, True, b, fn) for b in allmasks(4, 1)]
             for rem in TORUS_3X4_REMOVED:
-                if fn != A1_PERIODIC_FIELDS[0] and 12 - len(rem) > TORUS_3X4_SECOND_FIELD_MAX_PIXELS and rem not in TORUS_3X4_REMOVED[3:5]:
+                if fn != A1_PERIODIC_FIELDS[0] and 12 - len(rem) > TORUS_3X4_SECOND_FIELD_MAX_PIXELS and rem not in TORUS_3X4_REMOVED[3:4]:
                     continue
                 cfgs += [(3, 4, True, full(3, 4) & ~sum(1 << p for p in rem), fn)]
         cfgs += [(2, 4, True, b, "per_sin") for b in allmasks(2, 4) if b != full(2, 4)]
@@ -983,7 +986,6 @@ ALLMASK_COMBOS_4X4 = (
     (False, "ramp_a", "wrapped", "f64"),
     (False, "bl0", "wrapped", "f32"),
     (True, "per_sin", "wrapped", "f64"),
-    (True, "per_bl0", "wrapped", "f64"),
 )
 
 
